@@ -188,15 +188,16 @@ def exec_case(case, cfg):
     import numpy as np
 
     B = seams.WORLD.B
+    einx = seams.WORLD.einx
     seams.reset_world(case["seed"])
     REAL = {b.name: b for b in seams.WORLD.initial_state.backends}
     fws = case["frameworks"]
     classes = [type(f"T{k}", (), {}) for k in range(len(fws))]
     is_scalar = lambda t: isinstance(t, float | int | bool | np.floating | np.integer | np.bool_)
-    stats = {"ops": 0, "lookups": 0, "skipped_ops": 0}
+    stats = {"ops": 0, "lookups": 0, "skipped_ops": 0, "materialisation_invariant_checked": 0}
     faults = {"F-factory-init": 0, "F-late-import": 0, "F-reg-order-permuted": 0}
     probes = {"lookup_after_memo_then_import": 0, "priority_tiebreak": 0, "ambiguous": 0, "with_stack_resolution": 0, "invalid_backend_selected": 0,
-              "lazy_materialised_by_lookup": 0, "scalars_only": 0, "known_class_seen": 0}
+              "lazy_materialised_by_lookup": 0, "scalars_only": 0, "known_class_seen": 0, "lookup_with_pending_imported_lazy_backend": 0}
     sigs = set()
     log = []
     bad = []  # (klass, detail, known_sig)
@@ -205,8 +206,10 @@ def exec_case(case, cfg):
         return B.Backend(ops={}, name=name, priority=prio, optimizations=[], compiler=None,
                          is_supported_tensor=lambda t, cls=cls: isinstance(t, cls), get_shape=lambda t: ())
 
-    def build(order, counting):
-        """A registry that has seen `order` (list of setup steps); imports are global."""
+    def build(order, counting, eager=False):
+        """A registry that has seen `order` (list of setup steps); imports are global.  eager: a lazily
+        registered backend is registered at the moment its module is imported (its factory then runs at
+        once), so the late-materialisation class of known_findings.jsonl cannot occur on it."""
         reg = B.BackendRegistry()
         model = Model()
         for s in order:
@@ -230,7 +233,10 @@ def exec_case(case, cfg):
                     return mk_backend(b["name"], b["prio"], cls)
 
                 if b["lazy"]:
-                    reg.register_on_import(fws[k]["mod"], b["name"], factory)
+                    if eager and fws[k]["mod"] not in sys.modules:
+                        deferred.setdefault(fws[k]["mod"], []).append((b["name"], factory))  # registered when the module appears
+                    else:
+                        reg.register_on_import(fws[k]["mod"], b["name"], factory)
                     model.entries.append(dict(name=b["name"], prio=b["prio"], cls=cls, healthy=b["healthy"], module=fws[k]["mod"]))
                 else:
                     if b["healthy"]:
@@ -240,7 +246,15 @@ def exec_case(case, cfg):
                             faults["F-factory-init"] += 1
                         reg.register(B.InvalidBackend(b["name"], "bad", priority=b["prio"]))
                     model.entries.append(dict(name=b["name"], prio=b["prio"], cls=cls, healthy=b["healthy"], module=None))
+            if eager and s[0] == "import":
+                materialise(reg, fws[s[1]]["mod"])
         return reg, model
+
+    deferred = {}
+
+    def materialise(reg, mod):
+        for name, factory in deferred.pop(mod, []):
+            reg.register_on_import(mod, name, factory)  # module is in sys.modules: the factory runs now
 
     def mk_tensors(spec):
         out = []
@@ -266,25 +280,19 @@ def exec_case(case, cfg):
         except Exception as e:
             return ("exc", type(e).__name__), None
 
-    def forced_twin(setup_done, imports_done, stack, arg, tensors, held):
-        """Same registrations and imports, but a by-name miss has forced materialisation first."""
-        reg2, _ = build([s for s in setup_done if s[0] != "import"], counting=False)
-        try:
-            reg2.get("__nope__")
-        except ValueError:
-            pass
-        for n in stack:
-            B.Use(reg2.get(n), reg2).__enter__()
-        return do_lookup(reg2, arg, tensors, held)[0]
+    def pending_imported(reg):
+        return sorted(m for m in reg.state.uninitialized_backends if m in sys.modules)
 
     created_mods = [f["mod"] for f in fws]
     try:
-        # main registry, a twin with permuted registration order, and (at the end) a registry that saw
-        # only registrations and imports
         setup = case["setup"]
-        reg, model = build(setup, counting=True)
-        pr = rng.stream(case.get("perm_seed", 0), "perm")
         regs_only = [s for s in setup if s[0] != "import"]
+        for m in created_mods:
+            sys.modules.pop(m, None)
+        eager, _ = build(setup, counting=False, eager=True)  # strict oracle: the known late-materialisation class cannot occur here
+        for m in created_mods:
+            sys.modules.pop(m, None)
+        pr = rng.stream(case.get("perm_seed", 0), "perm")
         perm = regs_only[:]
         pr.shuffle(perm)
         it = iter(perm)
@@ -292,23 +300,32 @@ def exec_case(case, cfg):
         if setup_perm != setup:
             faults["F-reg-order-permuted"] += 1
         twin, _ = build(setup_perm, counting=False)
+        for m in created_mods:
+            sys.modules.pop(m, None)
+        reg, model = build(setup, counting=True)
+        regs = {"main": reg, "permuted-order twin": twin, "eager-materialisation twin": eager}
+        late_seen = {"main": False, "permuted-order twin": False}
         held = {}
         ctx = []
         lookups_done = []
+        seen_type_tuples = set()
         memo_filled = False
         late_import = False
         cfg_shape = (len(fws), any(b["lazy"] for f in fws for b in f["backends"]), any(not b["healthy"] for f in fws for b in f["backends"]), case["kind"])
 
-        def judge(where, reg_, arg, tspec, tensors, stack_names, opi):
+        def fatal():
+            return any(b[2] is None for b in bad)
+
+        def judge(where, reg_, arg, tspec, tensors, stack_names, opi, strict):
             exp, branch = model.resolve(arg, tensors, is_scalar)
             got, obj = do_lookup(reg_, arg, tensors, held)
             if got != exp:
-                forced = forced_twin(setup, None, stack_names, arg, tensors, held)
-                if forced == exp and arg is None:
+                msg = f"op {opi} ({where}): lookup(arg={arg}, tensors={tspec}) with with-stack {stack_names} expected {exp} [{branch}] got {got}"
+                if not strict and late_seen.get(where) and arg is None:
                     probes["known_class_seen"] += 1
-                    bad.append(("lookup-mismatch", f"op {opi} ({where}): lookup(arg={arg}, tensors={tspec}) expected {exp} got {got}; the forced-materialisation twin answers {forced}", "lazy-unmaterialised"))
+                    bad.append(("lookup-mismatch", msg + "; the twin registry that materialises lazy backends at import time answers as documented", "lazy-unmaterialised"))
                 else:
-                    bad.append(("lookup-mismatch", f"op {opi} ({where}): lookup(arg={arg}, tensors={tspec}) with stack {stack_names} expected {exp} [{branch}] got {got} (forced twin: {forced})", None))
+                    bad.append(("lookup-mismatch", msg, None))
             return exp, got, obj, branch
 
         for opi, op in enumerate(case["ops"]):
@@ -320,30 +337,37 @@ def exec_case(case, cfg):
                     late_import = True
                 sys.modules[mod] = types.ModuleType(mod)
                 model.imported.add(mod)
+                materialise(eager, mod)
                 log.append(["import", op[1]])
             elif op[0] == "enter":
                 name = op[1]
                 exp, _ = model.resolve({"name": name}, [], is_scalar)
-                got, obj = do_lookup(reg, {"name": name}, [], held)
-                got2, obj2 = do_lookup(twin, {"name": name}, [], held)
-                log.append(["enter", name, exp, got])
-                if got != exp or got2 != exp:
-                    bad.append(("lookup-mismatch", f"op {opi}: by-name lookup {name!r} for enter expected {exp} got {got} / twin {got2}", None))
+                objs = {}
+                for w, r_ in regs.items():
+                    pend = pending_imported(r_)
+                    known_before = name in r_.state.name_to_backend
+                    got, objs[w] = do_lookup(r_, {"name": name}, [], held)
+                    if got != exp:
+                        bad.append(("lookup-mismatch", f"op {opi} ({w}): by-name lookup {name!r} for a with-block expected {exp} got {got}", None))
+                    if not known_before and pend and got[0] == "obj" and pending_imported(r_):
+                        bad.append(("materialisation-skipped", f"op {opi} ({w}): by-name miss of {name!r} did not register the lazily registered backends of imported modules {pending_imported(r_)}", None))
+                log.append(["enter", name, exp])
+                if fatal():
                     break
                 if exp[0] == "obj":
-                    B.Use(obj, reg).__enter__()
-                    B.Use(obj2, twin).__enter__()
+                    for w, r_ in regs.items():
+                        B.Use(objs[w], r_).__enter__()
                     model.stack.append(name)
-                    ctx.append((obj, obj2))
-                    held[name] = obj
+                    ctx.append(objs)
+                    held[name] = objs["main"]
             elif op[0] == "exit":
                 if not model.stack:
                     stats["skipped_ops"] += 1
                     continue
                 name = model.stack.pop()
-                obj, obj2 = ctx.pop()
-                B.Use(obj, reg).__exit__(None, None, None)
-                B.Use(obj2, twin).__exit__(None, None, None)
+                objs = ctx.pop()
+                for w, r_ in regs.items():
+                    B.Use(objs[w], r_).__exit__(None, None, None)
                 log.append(["exit", name])
             elif op[0] == "lookup":
                 _, arg, tspec = op
@@ -356,8 +380,38 @@ def exec_case(case, cfg):
                 tensors = mk_tensors(tspec)
                 stack_names = list(model.stack)
                 nb_before = len(reg.state.backends)
-                exp, got, obj, branch = judge("main", reg, arg, tspec, tensors, stack_names, opi)
+                # the documented trigger: a lookup that finds no accepting backend for some argument (or an unknown name) notices new imports
+                pre = {}
+                for w in ("main", "permuted-order twin"):
+                    r_ = regs[w]
+                    pend = pending_imported(r_)
+                    if pend:
+                        late_seen[w] = True
+                        probes["lookup_with_pending_imported_lazy_backend"] += 1
+                    miss = False
+                    if arg is None and not stack_names and (w, tuple(tspec)) not in seen_type_tuples:
+                        miss = any(not any(b.is_supported_tensor(t) for b in r_.state.backends) for t in tensors)
+                    elif arg is not None and "name" in arg:
+                        miss = arg["name"] not in r_.state.name_to_backend
+                    pre[w] = (pend, miss)
+                exp, got, obj, branch = judge("main", reg, arg, tspec, tensors, stack_names, opi, strict=False)
                 stats["lookups"] += 1
+                judge("eager-materialisation twin", eager, arg, tspec, tensors, stack_names, opi, strict=True)
+                twin_got = None
+                if not (arg is not None and "obj" in arg):
+                    _, twin_got, _, _ = judge("permuted-order twin", twin, arg, tspec, tensors, stack_names, opi, strict=False)  # order independence
+                ok_by = {"main": got[0] == "obj"}
+                for w in ("main", "permuted-order twin"):
+                    pend, miss = pre[w]
+                    if w not in ok_by:
+                        ok_by[w] = twin_got is not None and twin_got[0] == "obj"
+                    if miss and pend and ok_by[w]:  # a failed lookup discards the state it built, materialisation included
+                        stats["materialisation_invariant_checked"] += 1
+                        if pending_imported(regs[w]):
+                            bad.append(("materialisation-skipped", f"op {opi} ({w}): lookup(arg={arg}, tensors={tspec}) found no accepting backend for an argument (or an unknown name) but did not register "
+                                        f"the lazily registered backends of the imported modules {pending_imported(regs[w])}", None))
+                    if arg is None and not stack_names:
+                        seen_type_tuples.add((w, tuple(tspec)))
                 if len(reg.state.backends) > nb_before:
                     probes["lazy_materialised_by_lookup"] += 1
                 if arg is None and not stack_names and got[0] == "obj":
@@ -387,43 +441,43 @@ def exec_case(case, cfg):
                     try:
                         obj.raise_on_import_failure()
                         ok1 = True
-                    except seams.WORLD.einx.errors.ImportBackendError:
+                    except einx.errors.ImportBackendError:
                         ok1 = False
                     try:
                         obj.ops
                         ok2 = True
-                    except seams.WORLD.einx.errors.ImportBackendError:
+                    except einx.errors.ImportBackendError:
                         ok2 = False
                     if not healthy:
                         probes["invalid_backend_selected"] += 1
                     if ok1 != healthy or ok2 != healthy:
                         bad.append(("health", f"op {opi}: backend {obj.name} healthy={healthy} but use raised={not ok1}/{not ok2}", None))
-                # order independence: the permuted twin must answer the same
-                if not (arg is not None and "obj" in arg):
-                    judge("permuted-order twin", twin, arg, tspec, tensors, stack_names, opi)
                 lookups_done.append((arg, tspec, stack_names, set(model.imported)))
-            # invariant: with-stack equals the model's
-            st = [b.name for b in reg.state.use_stack]
-            if st != model.stack:
-                bad.append(("use-stack", f"op {opi}: use_stack {st} != model {model.stack}", None))
-            if any(b[2] is None for b in bad):
+            # invariant: with-stack equals the model's (in every registry)
+            for w, r_ in regs.items():
+                st = [b.name for b in r_.state.use_stack]
+                if st != model.stack:
+                    bad.append(("use-stack", f"op {opi} ({w}): use_stack {st} != model {model.stack}", None))
+            if fatal():
                 break
         # history independence: every lookup again at the end and on a registry that saw only the
         # registrations and the final imports (only lookups made when all final imports were present,
         # and outside with-blocks, are comparable)
-        if not any(b[2] is None for b in bad):
+        if not fatal():
             while model.stack:
                 model.stack.pop()
-                obj, obj2 = ctx.pop()
-                B.Use(obj, reg).__exit__(None, None, None)
-            fresh, _ = build(regs_only, counting=False)  # all modules already in sys.modules
+                objs = ctx.pop()
+                for w, r_ in regs.items():
+                    B.Use(objs[w], r_).__exit__(None, None, None)
+            fresh, _ = build(regs_only, counting=False)  # all modules already in sys.modules: registrations materialise at once
             for n, (arg, tspec, stack_names, imp) in enumerate(lookups_done):
                 if stack_names or imp != model.imported or (arg is not None and "obj" in arg):
                     continue
                 tensors = mk_tensors(tspec)
-                judge("end of history", reg, arg, tspec, tensors, [], f"L{n}")
-                judge("registry without earlier lookups", fresh, arg, tspec, tensors, [], f"L{n}")
-                if any(b[2] is None for b in bad):
+                judge("main", reg, arg, tspec, tensors, [], f"L{n} (repeated at the end of the history)", strict=False)
+                judge("eager-materialisation twin", eager, arg, tspec, tensors, [], f"L{n} (repeated at the end of the history)", strict=True)
+                judge("registry without earlier lookups", fresh, arg, tspec, tensors, [], f"L{n}", strict=True)
+                if fatal():
                     break
     finally:
         for m in created_mods:
